@@ -6,7 +6,7 @@
    and every tuple of distinct successors. *)
 From Coq Require Import List ZArith Bool Lia.
 Import ListNotations.
-From V Require Import Valid.Hier Model.Graph Model.Edits.
+From V Require Import Valid.Hier Model.Graph Model.Edits Model.Edits2 Model.Edits3.
 Local Open Scope Z_scope.
 
 Lemma zassoc_tset' tbl k v x : zassoc x (tset tbl k v) = if Z.eqb x k then Some v else zassoc x tbl.
@@ -164,3 +164,25 @@ Proof.
   - intros Hn. rewrite Hz. rewrite find_pos_none; [reflexivity|]. intros k _ Hk. apply Hn. eapply nth_error_In; eauto.
 Qed.
 End Positional.
+
+(* the rewritten table has distinct keys *)
+Lemma copy_keys_nodup target tgt : forall (tbl acc : list (Z * name)),
+  NoDup (map fst acc) ->
+  NoDup (map fst (fold_left (fun a kv => if Z.eqb (snd kv) target then tset a (fst kv) tgt else a) tbl acc)).
+Proof.
+  induction tbl as [|[k t] r IH]; intros acc H; [exact H|]. cbn [fold_left snd fst]. apply IH.
+  destruct (Z.eqb t target); [unfold tset; apply dset_keys_nodup; exact H|exact H].
+Qed.
+
+Lemma table_rewrite_keys tbl new_jt all_old : forall old_jt idx acc res,
+  NoDup (map fst acc) -> table_rewrite tbl old_jt new_jt all_old idx acc = Some res -> NoDup (map fst res).
+Proof.
+  induction old_jt as [|target rest IH]; intros idx acc res Hnd H.
+  - cbn in H. injection H as <-. exact Hnd.
+  - cbn [table_rewrite] in H. destruct (zmem target new_jt).
+    + eapply IH; [|exact H]. apply copy_keys_nodup. exact Hnd.
+    + destruct (Nat.eqb (length new_jt) (length all_old)).
+      * destruct (nth_error new_jt idx) as [nt|]; [|discriminate]. eapply IH; [|exact H]. apply copy_keys_nodup. exact Hnd.
+      * destruct (dedupe (filter (fun t => negb (zmem t all_old)) new_jt)) as [|nt [|? ?]]; try discriminate.
+        eapply IH; [|exact H]. apply copy_keys_nodup. exact Hnd.
+Qed.
